@@ -84,9 +84,15 @@ pub fn tok(sk: &HllSketch) -> Value {
     json!(seven(sk).iter().map(|x| fhex(*x)).collect::<Vec<_>>())
 }
 
+/// the three-sigma upper bound rounded down (every register that is not zero stands for a distinct item)
+fn ub3i(s: &[f64; 7]) -> i64 {
+    if s[6].is_finite() && s[6] >= 0.0 { s[6].min(1e9) as i64 } else { -1 }
+}
+
 pub fn obs(sk: &HllSketch) -> Value {
     let s = seven(sk);
-    json!({"b": ranks(&s), "pos": s[3] > 0.0, "emp": sk.is_empty(), "len": sk.serialize().len(), "rel": rel6(&s), "e3": est1000(&s)})
+    json!({"b": ranks(&s), "pos": s[3] > 0.0, "emp": sk.is_empty(), "len": sk.serialize().len(), "rel": rel6(&s), "e3": est1000(&s),
+        "ub3i": ub3i(&s)})
 }
 
 /// x * 2^shift as four 16-bit limbs when that is an integer below 2^63 (else four times 65535 + marker)
@@ -122,7 +128,8 @@ fn uobs(u: &HllUnion) -> Value {
         u.upper_bound(NumStdDev::Two),
         u.upper_bound(NumStdDev::Three),
     ];
-    json!({"b": ranks(&s), "pos": s[3] > 0.0, "emp": u.is_empty(), "len": g.serialize().len(), "rel": rel6(&s), "e3": est1000(&s)})
+    json!({"b": ranks(&s), "pos": s[3] > 0.0, "emp": u.is_empty(), "len": g.serialize().len(), "rel": rel6(&s), "e3": est1000(&s),
+        "ub3i": ub3i(&s)})
 }
 
 fn utok(u: &HllUnion) -> Value {
